@@ -113,19 +113,20 @@ prop('C01',
      design_ref='DESIGN.md §5 C01')
 
 prop('C08',
-     modules=['LarkVerif.Earley', 'LarkVerif.EarleyExec', 'LarkVerif.LR', 'LarkVerif.LRComplete', 'LarkVerif.Props.C08'],
-     theorems=['Props.C08.earley_viable_prefix_alive', 'Props.C08.earley_expected_backed', 'Props.C08.lalr_viable_prefix_shifts'],
+     modules=['LarkVerif.Earley', 'LarkVerif.EarleyExec', 'LarkVerif.EarleyExpected', 'LarkVerif.LR', 'LarkVerif.LRComplete', 'LarkVerif.Props.C08'],
+     theorems=['Props.C08.earley_viable_prefix_alive', 'Props.C08.earley_expected_backed', 'Props.C08.lalr_viable_prefix_shifts',
+               'Props.C08.earley_expected_complete', 'Props.C08.earley_expected_exact', 'Props.C08.earley_expected_needs_productive'],
      fingerprints=['lark/parsers/earley.py:Parser._parse', 'lark/parsers/earley.py:Parser.parse', 'lark/parsers/xearley.py:Parser._parse', 'lark/parsers/lalr_parser_state.py:ParserState.feed_token',
                    'lark/parsers/lalr_interactive_parser.py:InteractiveParser.accepts', 'lark/lexer.py:BasicLexer.next_token', 'lark/lexer.py:ContextualLexer.lex'],
      rule='rejected inputs of the C01 stream (random CFGs x Earley lexers; sampled sentences mutated by delete/insert/truncate/reverse, random strings): the exception class, position (offset, line, column), and the '
           'expected/allowed set must be those of the last non-empty column of the verified chart: dynamic lexers UnexpectedCharacters at that offset with exactly the terminals expected there; basic lexer UnexpectedToken '
           'at that token with a superset; UnexpectedEOF with the final column\'s expectations when the whole text is a viable prefix. LALR: random grammars x token strings, the model LR driver on lark\'s own exported table '
           'gives the index of the offending token; accepts() is compared with trial feeding and must be a subset of expected. Any other exception type or a timeout is a violation. Non-trivial: every rejected case; distinct by hash. Earley grammars carry aliases. LALR: a third of the parsers read their tokens through a post-lexer that re-creates every token with shifted coordinates; an unexpected $END must carry the coordinates of the last token fed.',
-     not_proved=['exactness of the dynamic expected set in the direction "every reported terminal can legally come next" needs productive nonterminals; it is stated as backed-by-a-derivation (earley_expected_backed) and sampled',
+     not_proved=['exactness of the dynamic expected set in the direction "every reported terminal can legally come next" is proved for grammars whose rules are all productive (earley_expected_exact; the decidable certificate productiveB is evaluated by the driver on every generated grammar and the split is counted in the distribution); for unproductive grammars it is false of lark and of the chart alike (earley_expected_needs_productive) and only backed-by-a-derivation holds',
                  'the claim that no other exception type escapes is observed on every generated case, not proved'],
      assumptions=['grammars with a post-lexer (Indenter) may raise DedentError and are outside this check (C18)'],
      level_text='Theorems: a lattice prefix that can be extended to a sentence keeps the Earley chart column non-empty (so the error is raised at the first dead position), every chart item is backed by a derivation of the '
-                'consumed text, and for any LALR table passing the completeness certificate a viable token prefix is consumed without error. The verified chart / the model LR driver give the expected position and '
+                'consumed text, the continuation set of a column contains every terminal that can legally come next (all grammars) and nothing else (productive grammars: exactness, with a verified certificate checker and a counterexample showing the hypothesis is needed), and for any LALR table passing the completeness certificate a viable token prefix is consumed without error. The verified chart / the model LR driver give the expected position and '
                 'continuation sets, which are compared with the real exceptions.',
      level_note='Trusted: Lean kernel, standard axioms, harness. Modelled not verified: exception construction (line/column are read from the token / LineCounter: C06).',
      technique='Lean 4 viable-prefix theorems (Earley chart, LALR driver) + differential correspondence of error class, position and continuation sets',
